@@ -59,6 +59,13 @@ RULE = (
     "'drip' variants (7 %): the unterminated line (request / status line, field, chunk-size line, trailer, both parsers) "
     "is over-long because of a run of one filler - CR, SP, HTAB, NUL, 0xFF, DEL, ';', VT/FF or a short pattern of them, "
     "never LF - after 0, 1 or limit-4 ordinary bytes, delivered in reads of 1, 7, 64 bytes or at once (the last byte always alone). "
+    "'chunked' (7 %): ten messages (requests and responses) with a chunked body built per element - size token (hex spellings, "
+    "signs, prefixes, whitespace, control bytes, bytes >= 0x80 alone / as UTF-8 / as digit-like code points), chunk extension, "
+    "line end, chunk-data terminator, last-chunk line, trailer field; mostly one malformed element per message, after 0-2 "
+    "well-formed chunks - through the parser objects (feed_data + feed_eof) and through the real server / client protocol "
+    "under one segmentation policy: whatever fails a body stream must be, or be caused by, an HTTP protocol error (the "
+    "explicit cause chain of RequestPayloadError / ClientPayloadError is followed; also judged in 'mutants' runs), and a "
+    "request delivered in one read whose body cannot be parsed must be answered with a 4xx. "
     "Non-trivial: at least one rejection or limit decision was exercised. "
     "Distinct = (kind, position, limits, signature)."
 )
@@ -359,8 +366,53 @@ def _gen_drip2(rng):
             "read": rng.choice([1, 1, 7, 64, "whole"])}
 
 
+# Chunked bodies built per element: every line of the chunked coding (chunk-size line = size token + extension + line end,
+# chunk-data terminator, last-chunk line, trailer field) is drawn from legal spellings, near misses and bytes of every
+# class (ASCII letters, signs, whitespace, control bytes, bytes >= 0x80 alone and as UTF-8 / "digit-like" code points), so
+# that whatever the parser does with a line it refuses - quoting it in the error included - is reached with every byte class.
+_CB_SIZE_OK = ["3", "03", "0003", "a", "A", "1f"]
+_CB_SIZE_BAD = ["", "g", "zz", "0x3", "-3", "+3", "3 3", "3_0", "3.0", "1e+1", " 3", "3 ", "\t3", "3\t", "\x003", "3\x00", "\x7f",
+                "\x0b3", "\xff", "\x80", "3\xe9", "\xe93", "\xc3\xa9", "\xb2", "\xb3", "\xbd", "\xd9\xa3", "\xef\xbc\x93", "\xa03",
+                "3\xa0", "\x85", "3\xff3", "\xff" * 20, "\xe2\x80\x8b3"]
+_CB_EXT = ["", "", "", "", ";e=1", ";e", "; e=1", ';e="q"', ";\xe9=1", ";e=\xff", " ;e=1", ";", ";e=1;f=2", ";e=\x00", ";\xc3\xa9"]
+_CB_EOL = ["\r\n"] * 7 + ["\n", "\r\r\n", "\r"]
+_CB_DATA_END = ["\r\n"] * 6 + ["\n", "XX", "\r", "\xff\n", "", "\r\xff"]
+_CB_LAST = ["0"] * 6 + ["00", "0\xff", "\xff0", "0 ", "-0", "\xb0"]
+_CB_TRAILER = [""] * 6 + ["T: v\r\n", "T\xe9: v\r\n", "T: \xff\r\n", "\xff\r\n", ": v\r\n", "T v\r\n", " T: v\r\n", "T : v\r\n",
+                          "T: v\x00\r\n", "\xc3\xa9: \xc3\xa9\r\n"]
+_CB_DATA = "abcdefghijklmnopqrstuvwxyz01234"
+
+
+def build_chunked(side, lead, size, ext, eol, data_end, last, trailer):
+    """A message with a chunked body: `lead` well-formed chunks, then the chunk under test (size token + extension + line
+    end, chunk data for a hex token, data terminator), the last-chunk line and the trailer section."""
+    head = "POST / HTTP/1.1\r\nHost: a\r\n" if side == "server" else "HTTP/1.1 200 OK\r\n"
+    n = int(size, 16) if re.fullmatch(r"[0-9a-fA-F]+", size) else 3
+    return (head + _CH + "3\r\nabc\r\n" * lead + size + ext + eol + _CB_DATA[:n] + data_end + last + "\r\n" + trailer + "\r\n")
+
+
+def _gen_chunked(rng):
+    cases = []
+    for _ in range(10):
+        side = rng.choice(["server", "server", "client"])
+        bad = rng.random() < 0.6
+        size = rng.choice(_CB_SIZE_BAD if bad else _CB_SIZE_OK)
+        # mostly one malformed element per message, so that the element is what decides the outcome
+        q = rng.random()
+        ext = rng.choice(_CB_EXT) if q < 0.35 else ""
+        eol = rng.choice(_CB_EOL) if 0.3 < q < 0.5 else "\r\n"
+        data_end = rng.choice(_CB_DATA_END) if (not bad and 0.45 < q < 0.65) else "\r\n"
+        last = rng.choice(_CB_LAST) if (not bad and 0.6 < q < 0.8) else "0"
+        trailer = rng.choice(_CB_TRAILER) if (not bad and q > 0.75) else ""
+        cases.append([side, build_chunked(side, rng.choice([0, 0, 1, 2]), size, ext, eol, data_end, last, trailer)])
+    return {"kind": "chunked", "cases": cases, "limits": dict(LIMIT_SETS[3] if rng.random() < 0.7 else dict(LIMIT_SETS[4], max_headers=128)),
+            "policy": rng.choice(["whole", "whole", "byte", "small", "after_cr", "tiny"]), "read_bufsize": rng.choice([65536, 8])}
+
+
 def gen(rng, tier, index):
     r0 = rng.random()
+    if 0.26 <= r0 < 0.33:
+        return _gen_chunked(rng)
     if r0 < 0.07:
         return _gen_direct(rng)
     if r0 < 0.12:
@@ -426,7 +478,7 @@ def shrink(scn):
     if scn["kind"] == "caller" and len(scn["garbage"]) > 1:
         for i in range(len(scn["garbage"])):
             yield dict(scn, garbage=[scn["garbage"][i]])
-    if scn["kind"] == "targets":
+    if scn["kind"] in ("targets", "chunked"):
         if len(scn["cases"]) > 1:
             for c in scn["cases"]:
                 yield dict(scn, cases=[c])
@@ -559,12 +611,14 @@ class Ctx:
         self.lim = lim
         self.read_bufsize = read_bufsize
         self.by_conn = {}
+        self.payload_excs = {}
         self.server = None
 
     def start_server(self):
         from aiohttp import web
 
         by_conn = self.by_conn
+        payload_excs = self.payload_excs
 
         async def handler(request):
             cid = request.transport.get_extra_info("sim_conn")
@@ -581,6 +635,7 @@ class Ctx:
                 raise
             except Exception as e:
                 recs.append("PAYLOAD_ERR:" + type(e).__name__)
+                payload_excs.setdefault(cid, e)
                 raise
             return web.Response(body=b"ok")
 
@@ -611,6 +666,7 @@ class Ctx:
         recs = self.by_conn.pop(cid, [])
         statuses = [int(x) for x in _STATUS.findall(bytes(cl.received))]
         out = {"recs": recs, "statuses": statuses, "closed": str_._closed or str_._closing,
+               "payload_exc": self.payload_excs.pop(cid, None),
                "exc": list(loop.exc_contexts), "fatal": list(net.fatal_errors), "capped": loop.capped == "steps",
                "answered": bool(cl.received)}
         # the task serving this connection must not have ended with an exception (nobody awaits it: the failure would
@@ -720,6 +776,39 @@ def _escape_violation(out, where, violate, what):
     return False
 
 
+def _foreign_cause(e):
+    """What a failed body stream handed to its reader, followed along the explicit cause chain: an HTTP protocol error
+    (HttpProcessingError) ends the walk; RequestPayloadError / ClientPayloadError are the wrappers the protocols put around
+    whatever the payload parser raised, so their cause is what is judged (no cause: nothing to judge, e.g. a lost
+    connection); other client / web / connection errors are not parser outcomes.  Returns the first exception of any
+    other type - the parser raised something that is not an HTTP protocol error - or None."""
+    from aiohttp import web
+    from aiohttp.client_exceptions import ClientError, ClientPayloadError
+    from aiohttp.http_exceptions import HttpProcessingError
+    from aiohttp.web_protocol import RequestPayloadError
+
+    for _ in range(8):
+        if e is None or isinstance(e, HttpProcessingError):
+            return None
+        if isinstance(e, (RequestPayloadError, ClientPayloadError)):
+            e = e.__cause__
+            continue
+        if isinstance(e, (ClientError, web.HTTPException, ConnectionError, asyncio.TimeoutError)):
+            return None
+        return e
+    return None
+
+
+def _payload_violation(exc, where, violate, what):
+    f = _foreign_cause(exc)
+    if f is None:
+        return False
+    violate("only_protocol_errors", f"{where}:payload_failure_cause:{type(f).__name__}@{_aio_frame(f)}",
+            f"{what}: the body stream failed with {type(exc).__name__}: {str(exc)[:100]!r} whose cause is {type(f).__name__}: "
+            f"{str(f)[:120]!r} - the payload parser raised something that is not an HTTP protocol error")
+    return True
+
+
 def run(scn, ch, log=False):
     viols = []
 
@@ -796,6 +885,8 @@ def run(scn, ch, log=False):
                     if out["capped"]:
                         violate("no_hang", "server:step_cap", f"server did not settle on {s[:80]!r}")
                         break
+                    if _payload_violation(out["payload_exc"], "server", violate, f"stream {s[:80]!r}"):
+                        break
                     if "ERR" in out["recs"]:
                         nontrivial = True
                         probes["server_rejections"] = probes.get("server_rejections", 0) + 1
@@ -812,6 +903,8 @@ def run(scn, ch, log=False):
                         violate("no_hang", "client:consumer_blocked_after_eof", f"client consumer still blocked after EOF on {s[:80]!r}")
                         break
                     e = out["etype"]
+                    if _payload_violation(e, "client", violate, f"stream {s[:80]!r}"):
+                        break
                     if e is not None:
                         nontrivial = True
                         probes["client_rejections"] = probes.get("client_rejections", 0) + 1
@@ -914,6 +1007,67 @@ def run(scn, ch, log=False):
                             f"{what} (complete request, {scn['policy']} delivery) neither reached the handler nor was refused: "
                             f"statuses={out['statuses']} closed={out['closed']}")
                     break
+        elif kind == "chunked":
+            lim = scn["limits"]
+            ctx = Ctx(w, lim, scn["read_bufsize"])
+            ctx.start_server()
+            from aiohttp.client_exceptions import ClientError
+            from aiohttp.http_exceptions import HttpProcessingError
+            whole = scn["policy"] == "whole"
+            # the parser objects themselves first: what leaves feed_data()/feed_eof() or is stored on the body stream
+            if _direct(w, {"family": "eofcut", "limits": lim, "cases": [[sd, s, []] for sd, s in scn["cases"]]}, violate, probes):
+                nontrivial = True
+            for side, s in ([] if viols else scn["cases"]):
+                data = G.enc(s)
+                what = f"chunked {'request' if side == 'server' else 'response'} body {s[s.index(_CH) + len(_CH):][:60]!r}"
+                probes["chunked_cases"] = probes.get("chunked_cases", 0) + 1
+                if side == "server":
+                    out = ctx.server_once(data, scn["policy"])
+                    if _escape_violation(out, "server", violate, what):
+                        break
+                    if out["capped"]:
+                        violate("no_hang", "server:step_cap", f"server did not settle on {what}")
+                        break
+                    if _payload_violation(out["payload_exc"], "server", violate, what):
+                        break
+                    failed = "ERR" in out["recs"] or out["payload_exc"] is not None
+                    if failed:
+                        nontrivial = True
+                        probes["chunked_rejections"] = probes.get("chunked_rejections", 0) + 1
+                    if "ERR" in out["recs"] and (not out["statuses"] or not 400 <= out["statuses"][-1] < 500):
+                        violate("parser_error_is_4xx", "server:parser_error_without_4xx",
+                                f"parser error on {what} but statuses={out['statuses']}")
+                        break
+                    if failed and whole and (not out["statuses"] or not 400 <= out["statuses"][0] < 500):
+                        # the whole message arrived in one read: the parser met the malformed line in the very call that
+                        # produced the message, nothing was dispatched before it - the failure is the parser's outcome for
+                        # this input and has to be the HTTP protocol error the server answers with a 4xx
+                        violate("parser_error_is_4xx", "server:body_parse_failure_in_one_read_without_4xx",
+                                f"{what} delivered in one read: the body could not be parsed ({out['recs']}) but the answer "
+                                f"was {out['statuses']}, not a 4xx")
+                        break
+                    if not failed and "REQ" not in out["recs"]:
+                        violate("no_hang", "server:complete_request_neither_handled_nor_refused",
+                                f"{what} ({scn['policy']} delivery) neither reached the handler nor was refused: "
+                                f"statuses={out['statuses']} closed={out['closed']}")
+                        break
+                else:
+                    out = ctx.client_once(data, scn["policy"], eof=True)
+                    if _escape_violation(out, "client", violate, what):
+                        break
+                    if out["blocked"]:
+                        violate("no_hang", "client:consumer_blocked_after_eof", f"client consumer still blocked after EOF on {what}")
+                        break
+                    e = out["etype"]
+                    if _payload_violation(e, "client", violate, what):
+                        break
+                    if e is not None:
+                        nontrivial = True
+                        probes["chunked_rejections"] = probes.get("chunked_rejections", 0) + 1
+                        if not isinstance(e, (HttpProcessingError, ClientError)):
+                            violate("only_protocol_errors", f"client:exception_type:{type(e).__name__}",
+                                    f"client parser surfaced {type(e).__name__}: {e!r} on {what}")
+                            break
         elif kind == "work":
             nontrivial = True
             counts = []
@@ -1199,6 +1353,19 @@ def oracle_selftest():
             assert ls[0].startswith("X: v") and all(x[0] in " \t" and len(x) > 1 for x in ls[1:])
     assert expected("resp_folded_field", 64, lim) == "accept" and expected("resp_folded_trailer", 68, lim) == "reject"
     assert build("resp_folded_trailer", 68, lim, 2)[0] == "client"
+    s = build_chunked("server", 1, "1f", ";e=1", "\r\n", "\r\n", "0", "T: v\r\n")
+    assert s.endswith(_CH + "3\r\nabc\r\n1f;e=1\r\n" + _CB_DATA + "\r\n0\r\nT: v\r\n\r\n") and len(_CB_DATA) == 0x1f
+    assert build_chunked("client", 0, "\xff", "", "\r\n", "\r\n", "0", "").endswith(_CH + "\xff\r\nabc\r\n0\r\n\r\n")
+    assert all(re.fullmatch(r"[0-9a-fA-F]+", t) and int(t, 16) <= len(_CB_DATA) for t in _CB_SIZE_OK)
+    assert not any(re.fullmatch(r"[0-9a-fA-F]+", t) for t in _CB_SIZE_BAD) and not any("\n" in t for t in _CB_SIZE_BAD + _CB_EXT)
+    from aiohttp.http_exceptions import TransferEncodingError
+    from aiohttp.web_protocol import RequestPayloadError
+    wrapped = RequestPayloadError("x")
+    wrapped.__cause__ = TransferEncodingError("x")
+    assert _foreign_cause(wrapped) is None and _foreign_cause(RequestPayloadError("x")) is None and _foreign_cause(None) is None
+    wrapped = RequestPayloadError("x")
+    wrapped.__cause__ = KeyError("k")
+    assert isinstance(_foreign_cause(wrapped), KeyError) and isinstance(_foreign_cause(ValueError("v")), ValueError)
     side, s = build_numeric("req_chunk_size", 5, "1", "0", "a", 3)
     assert side == "server" and s.endswith("\r\n\r\n1aaaa\r\nabc")
     side, s = build_numeric("resp_content_length", 4, "0", "7", "a", 0)
